@@ -73,7 +73,8 @@ PROPS = {
             J("gf2p16", "C11_rowreduce_concrete", bound="10 concrete structured matrices (swaps at every pivot, non-unit pivots, rank deficient) x fully symbolic n x k right-hand side, k 1..5 (narrower, equal, wider)", must_reach=["singular", "nonsingular"]),
             J("gf2p16", "C09_inplace_row", bound="the in-place row kernel contract scaleRow relies on: mulSlice(c, row, row), 0..35 elements"),
             J("gf2p16", "C11_times", bound="2x2 by 2x2 fully symbolic"),
-            J("gf2p16", "C11_fill", bound="NewMatrixFromFunction and NewIdentityMatrix for dimensions 1x1, 3x5, 33x31, 129x128, 130x127, 200x100 (every element, symbolic base value)"),
+            J("gf2p16", "C11_fill", bound="NewMatrixFromFunction and NewIdentityMatrix for dimensions 1x1, 3x5, 33x31, 129x128, 130x127, 200x100, 257x3, 263x1, 300x2 (every element, symbolic base value)"),
+            J("gf2p16", "C11_wide_swap", bound="2x2 row exchange with a right-hand side of 300 columns (symbolic at columns 0, 1, 255, 256, 257, 299): result, N unchanged"),
         ],
     ),
     "C07": dict(
@@ -115,6 +116,7 @@ PROPS = {
             J("par1", "C04_roundtrip_unicode", bound="a non-ASCII name and a name needing a UTF-16 surrogate pair, sizes 2 and 0, 2 volumes, every damage subset"),
             J("par1", "C04_sixteenk", bound="one file of exactly 16384 / 16385 concrete bytes (the 16k-hash boundary), 1 volume, every damage of the C04 scenario incl. appended byte"),
             J("par1", "C04_max_volumes", bound="one 2-byte file with the maximum of 99 volumes: all found; any one of volumes 1, 50, 98, 99 alone repairs the lost file"),
+            J("par1", "C04_max_shards", timeout=1500, args=["-max-steps", "600000000"], bound="157 (and 156) one-byte files with 99 volumes (256 resp. 255 shards): every volume found; the last volume alone repairs a lost file"),
         ],
     ),
     "C10": dict(
@@ -123,6 +125,7 @@ PROPS = {
         jobs=[
             J("par1", "C10_writer", bound="1..3 files (non-ASCII and surrogate-pair names, an empty file), 1..2 volumes, symbolic contents"),
             J("par1", "C10_reader", bound="2 saved entries + 1 non-saved entry at every position, a comment in the index, 2 volumes; one saved file lost"),
+            J("par1", "C10_reader_many", timeout=1500, args=["-max-steps", "600000000"], bound="reference-written index with 255 / 256 / 262 entries (2 saved, the rest not saved), 2 volumes, both saved files lost"),
         ],
     ),
     "C20": dict(
@@ -208,6 +211,7 @@ PROPS = {
             J("par2", "C03_verify_arbitrary", bound="1 file of 4/5 bytes, arbitrary current content"),
             J("par2", "C16_locmap", must_reach=["hit"], bound="the real checksumShardLocationMap.put/get with 2..3 registered slices of 8 symbolic bytes, arbitrary (data-independent) 32-bit CRC values incl. equal CRCs with different content, one symbolic query window"),
             J("par2", "C06_volume_names", bound="2 files, blocks 0..2 spread over 1..3 volume files named s.<anything>.par2 (spaces, extra dots)"),
+            J("par2", "C13_big_truncate", bound="one protected file of 16388 concrete bytes, slice size 8192, 1 block; the data file cut to 0, 1, 8191, 8192, 16383, 16384, 16385, 16387 bytes, or one byte changed in place at offset 0, 16383, 16384, 16387"),
             J("par2", "C03_verify_sym", tier="thorough", bound="1 file of 4/5 fully symbolic bytes, 6 structured damage kinds (1 symbolic damage byte)", timeout=3000),
         ],
     ),
@@ -228,6 +232,7 @@ PROPS = {
             J("par2", "C06_glob", bound="the real defaultFileIO.FindWithPrefixAndSuffix (filepath.Glob, real SSA) on a modelled directory: base names of 1..3 symbolic bytes over { a space - [ ] * ? \\ }"),
             J("par2", "C06_basename", bound="the real newDecoder + LoadParityData with an index path whose base name is 1..3 symbolic bytes over {x p a r 2 . space}: prefix and suffix handed to the directory search"),
             J("par2", "C06_volume_names", bound="2 files, blocks 0..2 spread over 1..3 volume files named s.<anything>.par2 (spaces, extra dots)"),
+            J("par2", "C06_high_exponents", must_reach=["repaired"], timeout=1500, bound="exponent pairs (40000,1), (2,65534), (32768,32769), 5-byte file missing, plain packet order"),
         ],
     ),
     "C17": dict(
@@ -259,7 +264,7 @@ PROPS = {
         jobs=[
             J("par2", "C13_truncate_index", bound="index file cut at every length 0..len; data present or missing"),
             J("par2", "C13_truncate_volume", bound="volume file cut at every length"),
-            J("par2", "C13_big_truncate", bound="one protected file of 16388 concrete bytes, slice size 8192, 1 block; the data file cut to 0, 1, 8191, 8192, 16383, 16384, 16385, 16387 bytes"),
+            J("par2", "C13_big_truncate", bound="one protected file of 16388 concrete bytes, slice size 8192, 1 block; the data file cut to 0, 1, 8191, 8192, 16383, 16384, 16385, 16387 bytes, or one byte changed in place at offset 0, 16383, 16384, 16387"),
             J("par2", "C13_truncate_data", bound="data file of 9 bytes cut at every length"),
             J("par2", "C13_corrupt_byte", bound="any one byte of the index or volume file replaced by any other value"),
             J("par2", "C13_delete_subset", bound="every file of a 2-file, 2-block set present / deleted / emptied (3^5 states)"),
